@@ -193,7 +193,7 @@ pub fn run(ctx: &Ctx) -> (Acc, String, bool) {
     let small_cfgs: Vec<(usize, usize)> = if ctx.quick() { vec![(0, 0), (0, 3), (3, 1), (5, 4), (8, 3)] } else { vec![(0, 0), (0, 3), (0, 4), (2, 1), (3, 1), (3, 3), (4, 2), (5, 4), (6, 2), (8, 3), (9, 1)] };
     let small_total = small.len() as u64 * small_cfgs.len() as u64;
     let tmpl_total = tmpl.len() as u64 * cfgs;
-    let random_total: u64 = ctx.pick(25_000, 1_500_000);
+    let random_total: u64 = ctx.pick(200_000, 15_000_000);
     let seed = ctx.seed;
     let gen_cfg = GenCfg { idents: IDS.iter().map(|s| s.to_string()).collect(), ..GenCfg::default() };
     let acc = run_cases(ctx, tmpl_total + small_total + random_total, |i, acc| {
